@@ -84,6 +84,25 @@ def pca_invariant(self):
     return True
 
 
+class InvariantAfter(taps.Monitor):
+    """Class invariant evaluated after a method of PCAModel returns (tap form of the icontract invariant)."""
+
+    def __init__(self, method):
+        self.name = "PCAModel.invariant_after"
+        self.method = method
+
+    def pre(self, ctx, args, kw):
+        return {}
+
+    def post(self, ctx, st, args, kw, r, exc):
+        if exc is None and args and taps.is_menpo(args[0]):
+            taps._DEPTH[0] -= 1           # the invariant function itself decides about re-entrancy
+            try:
+                pca_invariant(args[0])
+            finally:
+                taps._DEPTH[0] += 1
+
+
 class IncrementLedger(taps.Monitor):
     """increment legitimately changes the total variance: re-record afterwards."""
     name = "increment_ledger"
@@ -103,11 +122,13 @@ class ProjectionMonitor(taps.Monitor):
     def pre(self, ctx, args, kw):
         m = args[0]
         x = args[1] if len(args) > 1 else None
-        if not taps.is_menpo(m) or not isinstance(x, np.ndarray) or x.ndim != 1 or not np.isfinite(x).all() or kw:
+        if not taps.is_menpo(m) or not isinstance(x, np.ndarray) or x.ndim != 1 or not np.isfinite(x).all():
             return None
-        if "_n_active_components" not in m.__dict__:
+        if kw and not (self.name == "instance" and set(kw) == {"normalized_weights"}):
             return None
-        return {"x": x.copy()}
+        if len(args) > 2 or "_n_active_components" not in m.__dict__:
+            return None
+        return {"x": x.copy(), "flags": x.flags.writeable}
 
     def post(self, ctx, st, args, kw, r, exc):
         from menpo.model import PCAVectorModel
@@ -115,7 +136,11 @@ class ProjectionMonitor(taps.Monitor):
         cls = type(m).__name__
         if exc is not None or not isinstance(m, PCAVectorModel):
             return
+        if not np.array_equal(args[1], st["x"]):
+            ctx.fail("model_operation_modified_the_array_the_caller_passed", cls=cls, mech=self.name + (":normalized" if kw.get("normalized_weights") else ""))
         x = st["x"]
+        if kw.get("normalized_weights"):
+            x = x * np.sqrt(np.asarray(m.eigenvalues)[: len(x)])
         scale = 100.0 * max(1.0, float(np.linalg.norm(x)))     # x 1e-8 below: 1e-6 relative to |x| (orthonormality itself is held to 1e-7)
         C = m.components
         if self.name == "instance":
@@ -159,7 +184,13 @@ def setup(ctx):
         taps.tap(ctx, owner, name, ProjectionMonitor(name))
     taps.tap(ctx, P.PCAVectorModel, "increment", IncrementLedger())
     icontract.invariant(pca_invariant, error=InvariantBroken)(P.PCAVectorModel)
-    icontract.invariant(pca_invariant, error=InvariantBroken)(P.PCAModel)
+    # PCAModel: icontract would replace its documentation-inheriting method descriptors by plain functions (changing the code
+    # under observation), so the same invariant is attached by taps on its own plain methods instead; the methods it
+    # inherits from PCAVectorModel carry the contract already
+    import types
+    for name, raw in list(P.PCAModel.__dict__.items()):
+        if isinstance(raw, types.FunctionType) and (name == "__init__" or not name.startswith("_")):
+            taps.tap(ctx, P.PCAModel, name, InvariantAfter(name))
 
 
 # ------------------------------------------------------------------------------------- data
@@ -224,6 +255,28 @@ def make_backed(rng, kind, n, d_hint):
     return out, base
 
 
+def object_api(ctx, model, w, x, scale):
+    """The object-level operations of an object-backed model are the vector-level ones of that same model."""
+    from menpo.model import PCAVectorModel
+    cls = type(model).__name__
+    ctx.tap("object_api_vs_vector_api", "calls")
+    with taps.quiet():
+        pairs = [("instance", model.instance_vector(w), PCAVectorModel.instance(model, w)),
+                 ("reconstruct", model.reconstruct_vector(x), PCAVectorModel.reconstruct(model, x)),
+                 ("project", model.project_vector(x), PCAVectorModel.project(model, x)),
+                 ("project_out", model.project_out_vector(x), PCAVectorModel.project_out(model, x))]
+        inst = model.instance(w)
+        pairs.append(("instance_object", inst.as_vector(), PCAVectorModel.instance(model, w)))
+        pairs.append(("project_object", model.project(inst), PCAVectorModel.project(model, inst.as_vector())))
+        pairs.append(("reconstruct_object", model.reconstruct(inst).as_vector(), PCAVectorModel.reconstruct(model, inst.as_vector())))
+    for name, a, b in pairs:
+        a, b = np.asarray(a, dtype=float).ravel(), np.asarray(b, dtype=float).ravel()
+        if a.shape != b.shape or np.abs(a - b).max() > 1e-9 * 100.0 * max(1.0, scale):
+            ctx.fail("object_level_operation_differs_from_the_vector_level_one_on_the_same_model", cls=cls, mech=name,
+                     shapes="%s_vs_%s" % (a.shape, b.shape))
+    ctx.tap("object_api_vs_vector_api", "checked")
+
+
 def w_model(ctx, rng, i):
     from menpo.model import PCAVectorModel, PCAModel
     LEDGER.clear()
@@ -281,13 +334,20 @@ def w_model(ctx, rng, i):
             inst = model.instance(w)
             model.project(inst); model.reconstruct(inst); model.project_out(inst)
             model.instance_vector(w); model.reconstruct_vector(x); model.project_out_vector(x)
+    wn = rng.normal(size=model.n_active_components)
+    model.instance(wn, normalized_weights=True)
     # ---- history of active-component changes and trims
     events = []
     total = model.n_components
     all_eigs = np.array(model._eigenvalues, copy=True)   # at this point nothing is trimmed: these are all eigenvalues
     orig = float(all_eigs.sum())
     for step in range(int(rng.integers(1, 11))):
-        kind = ["int", "float", "trim_int", "trim_float", "restore", "query"][rng.integers(0, 6)]
+        kind = ["int", "float", "trim_int", "trim_float", "restore", "query", "copy"][rng.integers(0, 7)]
+        if kind == "copy":
+            # the history continues on a copy (which has been used before, like its original)
+            model = model.copy()
+            events.append(kind)
+            continue
         kept = np.array(model._eigenvalues, copy=True)
         cum = np.cumsum(kept) / orig
         if kind == "int":
@@ -345,6 +405,9 @@ def w_model(ctx, rng, i):
         w = rng.normal(size=model.n_active_components)
         x = rng.normal(size=d) * scale
         PCAVectorModel.instance(model, w); PCAVectorModel.reconstruct(model, x); PCAVectorModel.project_out(model, x)
+        PCAVectorModel.instance(model, rng.normal(size=model.n_active_components), normalized_weights=True)
+        if backing != "vector":
+            object_api(ctx, model, w, x, scale)
     changed = any(e in ("int", "float", "trim_int", "trim_float") for e in events)
     ctx.count_case((backing, rel, centre, tuple(sorted(set(events)))), nontrivial=total >= 2 and changed,
                    sample={"backing": backing, "n": n, "d": d, "centred": centre, "history": events} if i < 6 else None)
